@@ -325,11 +325,29 @@ theorem guarded_eval (env : Env F) (refs : List RRef) (names : List String) (ful
     simp only [cutExpr, cutArgs, evalExpr, evalArgs, ihv, hv, hd1, hd1', String.reduceEq, if_false, if_true]
     rw [evalIfna_irrelevant rv rd' rd vv dv' dv hvv hsel hd2' hd2]
 
+theorem fillOf_cut (refs : List RRef) (names : List String) (full : List RRef) (e : Expr F) :
+    fillOf (cutExpr refs names full e) = fillOf e := by
+  cases e with
+  | ref r =>
+    simp only [cutExpr]
+    split
+    · rfl
+    · split
+      · simp [circArray, fillOf]
+      · rfl
+  | name n => simp only [cutExpr]; split <;> rfl
+  | call f args => simp only [cutExpr, fillOf]
+  | lit v => rfl
+  | empty => rfl
+  | array rows => rfl
+  | bin o l r => rfl
+  | un o x => rfl
+
 /-- the same for what the cell stores -/
 theorem guarded_formulaValue (env : Env F) (refs : List RRef) (names : List String) (full : List RRef) (e : Expr F)
     (R C i j : Nat) (h : Guarded env refs names full e) :
     formulaValue env R C i j (cutExpr refs names full e) = formulaValue env R C i j e := by
-  simp only [formulaValue, guarded_eval env refs names full e h]
+  simp only [formulaValue, guarded_eval env refs names full e h, fillOf_cut]
 
 /-! ### the solved workbook stores the cut formula; under `Guarded` its value solves the original equation -/
 
